@@ -540,6 +540,8 @@ def run(ctx):
     # ---------------- record side
     lcases, lfail, nlines = record_side(ctx, quick)
     eventlet_sendfile_records(ctx)
+    import lib_battery
+    lib_battery.report(ctx, "records", "battery")
     ctx.log("record side: %d records, oracle failures: %d" % (nlines, lfail))
     bad2 = ctx.correspond("line", HEADER_LOG, lcases, shard=120)
     if bad2:
@@ -664,6 +666,9 @@ def search(ctx):
 
 
 def replay(rep):
+    if rep.get("kind") == "battery":
+        import lib_battery
+        return lib_battery.replay(rep)
     if rep.get("kind") == "eventlet-sent":
         class C:
             extra = {}
